@@ -162,8 +162,16 @@ func Keywords(dispatcher string, keywords []string, floorName string) Rule {
 		var D *types.Named
 		var dctor *ssa.Function
 		for g, T := range ctors {
-			if T.Obj().Name() == dispatcher {
+			if core.KnownTypeName(T) == dispatcher {
 				D, dctor = T, g
+			}
+		}
+		if D == nil {
+			// the type may have been renamed: its constructor is followed by the anchors (signature + fingerprint)
+			if g := p.Func("new" + strings.ToUpper(dispatcher[:1]) + dispatcher[1:]); g != nil {
+				if T, ok := ctors[g]; ok {
+					D, dctor = T, g
+				}
 			}
 		}
 		if D == nil {
@@ -213,7 +221,7 @@ func Keywords(dispatcher string, keywords []string, floorName string) Rule {
 				continue
 			}
 			for _, x := range fl {
-				key := dispatcher + ":" + kw + "->" + x.T.Obj().Name() + "." + x.field
+				key := dispatcher + ":" + kw + "->" + core.KnownTypeName(x.T) + "." + x.field
 				// liveness: the field is read by Validate (or a method it calls on the receiver) or by Applies
 				live := false
 				st := x.T.Underlying().(*types.Struct)
@@ -225,7 +233,7 @@ func Keywords(dispatcher string, keywords []string, floorName string) Rule {
 							continue
 						}
 						for _, m := range []string{"Validate", "Applies"} {
-							if f := p.Func("(*" + x.T.Obj().Name() + ")." + m); f != nil {
+							if f := p.Func("(*" + core.KnownTypeName(x.T) + ")." + m); f != nil {
 								reads, _ := rs.of(f, 0)
 								if reads[i] {
 									live = true
@@ -237,7 +245,7 @@ func Keywords(dispatcher string, keywords []string, floorName string) Rule {
 				if live {
 					r.OK(rule, key, p.Pos(x.at.Pos()), "keyword wired to a sub-validator field that its Validate/Applies reads")
 				} else {
-					r.Bad(rule, key, p.Pos(x.at.Pos()), "keyword "+kw+" is stored in "+x.T.Obj().Name()+"."+x.field+" but never read while validating: the constraint is skipped")
+					r.Bad(rule, key, p.Pos(x.at.Pos()), "keyword "+kw+" is stored in "+core.KnownTypeName(x.T)+"."+x.field+" but never read while validating: the constraint is skipped")
 				}
 			}
 		}
@@ -264,7 +272,7 @@ func NilPath(p *core.Prog, r *core.Report) {
 	kindIndep := map[*types.Named]bool{}
 	for _, vf := range na.implsByName["Validate"] {
 		T := core.NamedOf(vf.Signature.Recv().Type())
-		af := p.Func("(*" + T.Obj().Name() + ").Applies")
+		af := p.Func("(*" + core.KnownTypeName(T) + ").Applies")
 		if af == nil || len(af.Params) != 3 {
 			continue
 		}
@@ -303,11 +311,11 @@ func NilPath(p *core.Prog, r *core.Report) {
 			continue
 		}
 		n++
-		key := "SchemaValidator:" + T.Obj().Name()
+		key := "SchemaValidator:" + core.KnownTypeName(T)
 		if invoked[T] {
 			r.OK(rule, key, p.Pos(f.Pos()), "kind-independent keyword group also runs when the instance is nil")
 		} else {
-			r.Bad(rule, key, p.Pos(f.Pos()), "the keyword group "+T.Obj().Name()+" applies to every kind of instance but is skipped on the nil-instance path: its keywords (allOf/anyOf/oneOf/not/dependencies for schemaPropsValidator) are not enforced for null")
+			r.Bad(rule, key, p.Pos(f.Pos()), "the keyword group "+core.KnownTypeName(T)+" applies to every kind of instance but is skipped on the nil-instance path: its keywords (allOf/anyOf/oneOf/not/dependencies for schemaPropsValidator) are not enforced for null")
 		}
 	}
 	r.Count("kind_independent_groups", n)
@@ -605,7 +613,7 @@ func appliesSource(p *core.Prog, r *core.Report, na *nilAn) {
 			}
 			for _, g := range na.implsFor(c.Common()) {
 				hs, any := handled(g)
-				T := core.NamedOf(g.Signature.Recv().Type()).Obj().Name()
+				T := core.KnownTypeName(core.NamedOf(g.Signature.Recv().Type()))
 				key := fn + ":" + T
 				var missing []string
 				if any {
@@ -674,7 +682,12 @@ func appliesSource(p *core.Prog, r *core.Report, na *nilAn) {
 									if !strings.HasSuffix(ap, "."+fld) && !strings.Contains(ap, "."+fld+".") {
 										continue
 									}
-									key := rt.Obj().Name() + ":" + T + ":fallback:" + ap[strings.LastIndex(ap, ".")+1:]
+									// (the owner as the anchors know it: a renamed type keeps its key)
+									owner := core.KnownTypeName(rt)
+									if fn := core.FuncName(m); strings.HasPrefix(fn, "(*") && strings.Contains(fn, ").") {
+										owner = fn[2:strings.Index(fn, ").")]
+									}
+									key := owner + ":" + T + ":fallback:" + ap[strings.LastIndex(ap, ".")+1:]
 									// same definition: the keyword path extends the source path (receiver variable names differ
 									// between methods: compare from the first field on)
 									tail := func(s string) string {
@@ -686,7 +699,7 @@ func appliesSource(p *core.Prog, r *core.Report, na *nilAn) {
 									if strings.HasPrefix(tail(ap), tail(srcPath)+".") {
 										r.OK(rule, key, p.Pos(c.Pos()), "the source handed to Applies is the definition the group's own "+fld+" was taken from")
 									} else {
-										r.Bad(rule, key, p.Pos(c.Pos()), fmt.Sprintf("%s builds its %s from %s but hands %s to Applies as the source, and Applies of %s falls back to the source's keyword when its own is empty: a nested definition without the keyword is judged with that of the enclosing parameter or header — {type: array, format: date, items: {type: string, default: \"abc\"}} reports the item as an invalid date", rt.Obj().Name(), T, ap, srcPath, T))
+										r.Bad(rule, key, p.Pos(c.Pos()), fmt.Sprintf("%s builds its %s from %s but hands %s to Applies as the source, and Applies of %s falls back to the source's keyword when its own is empty: a nested definition without the keyword is judged with that of the enclosing parameter or header — {type: array, format: date, items: {type: string, default: \"abc\"}} reports the item as an invalid date", core.KnownTypeName(rt), T, ap, srcPath, T))
 									}
 								}
 							}
@@ -700,7 +713,7 @@ func appliesSource(p *core.Prog, r *core.Report, na *nilAn) {
 		if len(af.Params) != 3 {
 			continue
 		}
-		T := core.NamedOf(af.Signature.Recv().Type()).Obj().Name()
+		T := core.KnownTypeName(core.NamedOf(af.Signature.Recv().Type()))
 		bad := false
 		src := af.Params[1]
 		var visit func(v ssa.Value, d int)
